@@ -1,5 +1,5 @@
 """C14 - every request completes exactly once (spec/Request.tla)."""
-from checks import _request
+from checks import _request, _callbacks
 
 META = {
     "property_id": "C14",
@@ -18,7 +18,11 @@ META = {
 
 def run(ctx):
     _request.run(ctx, "C14")
+    _callbacks.run(ctx)          # the add_callback || _set_final_* race at lock / line granularity (spec/Callbacks.tla)
 
 
 def replay(ctx, obj):
-    _request.replay(ctx, "C14", obj)
+    if obj.get("callbacks"):
+        _callbacks.replay(ctx, obj)
+    else:
+        _request.replay(ctx, "C14", obj)
